@@ -46,6 +46,7 @@ def run(tier):
                            Deviations='{"ReaderContinuesAfterClose"}'),
         invariants=['C05_NothingAfterDiscStrict'], expect='C05_NothingAfterDiscStrict'))
     core.run_tlc_jobs(ck, jobs)
+    core.l2_models(ck, th)
 
     seed = ck.seed
     n = 400 if th else 120
@@ -75,6 +76,7 @@ def run(tier):
                                        'every end cause, monitor=%s' % mon, tstep=(1, 8)))
     core.conform(ck, plans, invariants=core.STATE_INVS + ['C05_NothingAfterDisc',
                                                           'C05_NothingAfterDiscStrict'])
+    core.l2_conform(ck, seed, 300 if th else 60)
     ck.cov['rule'] = ('case = one environment script on one implementation/configuration; distinct by '
                       'recorded action sequence')
     ck.assume('handler exceptions are scripted (message tokens mX*, disconnect handler raising in '
